@@ -332,14 +332,28 @@ def r3(ctx):
     d = c.methods.get("delete_foreign_device_table_entry")
     if d is None:
         raise AnchorMissing("BIPBBMD.delete_foreign_device_table_entry")
-    lp = [l for l in walk_shallow(d) if isinstance(l, ast.For)]
-    ok = len(lp) == 1 and bool(lp[0].orelse)
-    if ok:
-        dl = [x for x in ast.walk(lp[0]) if isinstance(x, ast.Delete)]
-        nf = [s for s in lp[0].orelse if isinstance(s, ast.Assign) and prog.try_const(m, s.value) == 0x0050]
-        ok = len(dl) == 1 and len(nf) == 1 and "fdAddress" in norm(enclosing_stmt(dl[0])._parent.test if isinstance(enclosing_stmt(dl[0])._parent, ast.If) else ast.Constant(0))
-        zero = [s for s in d.body if isinstance(s, ast.Assign) and prog.try_const(m, s.value) == 0]
-        ok = ok and len(zero) == 1
+    # decided on the paths of the method: where the address comparison succeeded the entry compared is deleted and 0 is
+    # returned; where no comparison succeeded nothing is deleted and 0x0050 is returned
+    from .common import path_return_value
+    evd = Evaluator(prog, m, c)
+    n_found = n_miss = 0
+    ok = True
+    for p in enumerate_paths(d):
+        if p.term != "return":
+            continue
+        hits = [e for e in p.events if e.kind == "cond" and "fdAddress" in norm(e.node) and e.pol]
+        dels = [e.node for e in p.events if e.kind == "stmt" and isinstance(e.node, ast.Delete)]
+        kind, val = path_return_value(p, evd, {})
+        if hits:
+            n_found += 1
+            cmp_ = hits[-1].node
+            entry = [norm(x.value) for x in ast.walk(cmp_) if isinstance(x, ast.Attribute) and x.attr == "fdAddress"]
+            ok = ok and len(dels) == 1 and len(entry) == 1 and norm(dels[0].targets[0]) == entry[0] and entry[0].startswith("self.bbmdFDT[") \
+                and kind == "value" and val == 0 and val is not False
+        else:
+            n_miss += 1
+            ok = ok and not dels and kind == "value" and val == 0x0050
+    ok = ok and n_found >= 1 and n_miss >= 1
     ctx.check("BBMD.delete_foreign_device_table_entry", ok, where(m, d), "deleting removes the entry with that address (result 0) or answers 0x0050 when there is none")
     # the table handed out is the live table
     f = c.methods["confirmation"]
